@@ -264,7 +264,7 @@ pub fn run(ctx: &Ctx) -> i32 {
     col.layer("single specs x documents", done, complete, json!({"specs": ns, "documents": nd}));
     // pairs (independence + NOT NULL cut) over a spec subset and a document subset
     let sub: Vec<&Spec> = sp.iter().filter(|s| matches!(s.path_text, ".a" | ".a.b" | "[0]") && matches!((s.ty, s.modifier), ("int", "") | ("text", "NOT NULL") | ("real", "DEFAULT") | ("int[]", "") | ("boolean", "CONVERT"))).collect();
-    let dsub: Vec<&String> = docs.iter().step_by(if ctx.tier == Tier::Thorough { 3 } else { 11 }).collect();
+    let dsub: Vec<&String> = docs.iter().step_by(if ctx.tier == Tier::Thorough { 1 } else { 11 }).collect();
     let np = (sub.len() * sub.len()) as u64;
     let (done2, complete2) = par_for_budget(ctx, np * dsub.len() as u64, 256, |idx| {
         let p = (idx % np) as usize;
